@@ -26,7 +26,7 @@ func TestC13(t *testing.T) {
 		},
 		NCases: func(tier string) int {
 			if tier == "thorough" {
-				return 20000
+				return 60000
 			}
 			return 1200
 		},
